@@ -403,8 +403,7 @@ def step (s : State) : Label → Option State
     if s.pc = .init2 then
       match popFree s with
       | some (w, rest) =>
-        some { setW s w { getW s w with inFilled := 0, inPos := 0, outPos := 0, pu := .disabled } with
-               threadsFree := rest, thr := some w, pc := .init3 }
+        some { s with threadsFree := rest, thr := some w, pc := .init3 }
       | none =>
         if s.workers.length < s.cfg.threadsMax then
           some { s with workers := s.workers ++ [{}], thr := some s.workers.length, pc := .init3 }
@@ -413,7 +412,10 @@ def step (s : State) : Label → Option State
   | .assign =>
     match s.pc, s.thr with
     | .init3, some t =>
-      some { setW s t { getW s t with blk := s.cur, inAlloc := true, inSize := (blk s s.cur).inSize, hasOut := true } with
+      -- (get_thread's unlocked resets of in_filled/in_pos/out_pos/partial_update are folded into this step: the worker is
+      --  idle and only the main thread looks at these fields until the thread is started)
+      some { setW s t { getW s t with blk := s.cur, inAlloc := true, inSize := (blk s s.cur).inSize, hasOut := true,
+                                       inFilled := 0, inPos := 0, outPos := 0, pu := .disabled } with
              queue := s.queue ++ [{ blk := s.cur, worker := some t }], cur := s.cur + 1, pc := .init4 }
     | _, _ => none
   | .startThr =>
@@ -466,7 +468,8 @@ def step (s : State) : Label → Option State
   -- ---- SEQ_ERROR --------------------------------------------------------------------------------
   | .seqError =>
     if s.pc = .seq && s.seq = .error then
-      if s.cfg.failFast then
+      -- (code 6 = the memlimit_stop path of SEQ_BLOCK_INIT, which always flushes the queue first, also with fail-fast)
+      if s.cfg.failFast && s.pend != .code 6 then
         match s.pend with
         | .code r => some { s with pc := .ret r }
         | _ => some { s with pc := .ret PROG_ERROR }
@@ -587,7 +590,7 @@ def stStatus (blocks : List Block) : Ret := (stRun blocks).2
 
 /-- Well-formed input: what the Block decoder contract (C03) guarantees about each item. -/
 def Block.WF (b : Block) : Prop :=
-  b.needIn ≤ b.inSize ∧ (b.ret = END → b.needIn = b.inSize) ∧
+  b.ret ≠ OK ∧ b.ret ≠ TIMED_OUT ∧ b.needIn ≤ b.inSize ∧ (b.ret = END → b.needIn = b.inSize) ∧
   (b.kind = .badHeader → b.ret ≠ END ∧ b.data = []) ∧ (b.kind = .sync → b.data = [])
 
 end XzVerif.MtDec
